@@ -1,12 +1,35 @@
-(** Property C06 — the compiler is total.
-    OBLIGATIONS: C06_nonvacuous *)
-From GV Require Import Compiler.Compile.
+(** Property C06 — the compiler is total: no input makes it panic, hang or deadlock.
+    In the model every function is total by construction; what could go wrong in the Go code is made explicit
+    as outcomes: [OPanic] (an index or slice out of range), [OHang] (the model's step budget, linear in the input,
+    used up) and [ODeadlock] (one lexer state call sends more tokens than the channel holds, so the lexer, which
+    runs in the parser's goroutine, would block for ever).  Proved here for EVERY input: no deadlock.  That [OPanic]
+    and [OHang] never occur is established by the correspondence run only (every prefix, deletion and insertion of
+    generated files, random bytes, size-scaling families), not by a theorem: labelled partial.
+    OBLIGATIONS: C06_state_call_emits_few C06_lexer_never_blocks C06_compile_never_deadlocks C06_nonvacuous *)
+From GV Require Import Compiler.Compile Proofs.LexProofs Proofs.NoDeadlockProofs.
+From Coq Require Import Lia.
+
+(** every state function, on every cursor, sends at most four tokens (the channel holds [c_token_queue_cap] = 64,
+    a constant regenerated from lexer.go) *)
+Theorem C06_state_call_emits_few : forall st l, (ol (snd (step st l)) <= ol l + 4)%nat /\ (4 < c_token_queue_cap)%nat.
+Proof. intros st l. split; [apply step_emits_few|change c_token_queue_cap with 64%nat; lia]. Qed.
+Print Assumptions C06_state_call_emits_few.
+
+Theorem C06_lexer_never_blocks : forall fuel lx, lok lx ->
+  match next_token fuel lx with PTok _ lx' => lok lx' | PDeadlock => False | _ => True end.
+Proof. exact next_token_ok. Qed.
+Print Assumptions C06_lexer_never_blocks.
+
+Theorem C06_compile_never_deadlocks : forall input, compile_parse input <> ODeadlock.
+Proof. exact compile_never_deadlocks. Qed.
+Print Assumptions C06_compile_never_deadlocks.
 
 (** non-vacuity / smoke: the model compiles a small template and rejects a truncated one *)
 Example C06_nonvacuous :
   (match compile_parse (lit "@goht T() {" ++ [10; 9] ++ lit "%p x" ++ [10] ++ lit "}" ++ [10]) with
    | ODone _ None => true | _ => false end) = true /\
   (match compile_parse (lit "@goht T() {" ++ [10; 9] ++ lit "%a{@attributes") with
-   | ODone _ (Some _) => true | _ => false end) = true.
-Proof. split; vm_compute; reflexivity. Qed.
+   | ODone _ (Some _) => true | _ => false end) = true /\
+  lok (new_lexer (lit "x")).
+Proof. split; [vm_compute; reflexivity|]. split; [vm_compute; reflexivity|reflexivity]. Qed.
 Print Assumptions C06_nonvacuous.
